@@ -300,6 +300,32 @@ def make_models():
         ex.write_ref(st, r, replace(it, pos=it.pos + 1))
         return some(it.items[it.pos])
 
+    def m_bytes_any(ex, st, args, dest_ty, fname):
+        """<Bytes as Iterator>::any(f): f is a closure or a fn item named in the call"""
+        r = args[0]
+        it = ex.deref(r, st) if isinstance(r, tuple) and r and r[0] in ("ref", "refval") else r
+        if not isinstance(it, BytesIt):
+            raise ExecError("Bytes::any on %r" % (it,))
+        m = re.search(r"\{(\w+)\}>$", fname)
+        clos = args[1]
+        if m:
+            f = ex.ctx.find_func(m.group(1))
+            if f is None or isinstance(f, tuple):
+                raise ExecError("no MIR body for fn item " + m.group(1))
+            mkargs = lambda b: [b]
+        else:
+            f = ex.closure_function(clos[1])
+            mkargs = lambda b: [clos, b]
+        acc = False
+        for b in it.items[it.pos:]:
+            val, pan = ex.call_value(st, f, mkargs(b))
+            if pan is not False:
+                raise ExecError("Bytes::any: predicate may panic")
+            acc = b_or(acc, val)
+        if isinstance(r, tuple) and r and r[0] == "ref":
+            ex.write_ref(st, r, replace(it, pos=len(it.items)))
+        return z3.simplify(acc) if is_sym(acc) else acc
+
     def m_str_len_bytes(ex, st, args, dest_ty, fname):
         s = deref_all(ex, st, args[0])
         from .models import utf8_len
@@ -427,11 +453,13 @@ def make_models():
         M(r"^must_use::<", m_identity),
         M(r"^core::str::<impl str>::bytes$", m_str_bytes),
         M(r"^<std::str::Bytes<'_> as Iterator>::next$", m_bytes_next),
+        M(r"^<std::str::Bytes<'_> as Iterator>::any::<", m_bytes_any),
         M(r"^core::slice::<impl \[u8\]>::contains$", m_slice_contains),
         M(r"^<String as AddAssign<&str>>::add_assign$", m_string_add_assign),
         M(r"^String::push_str$", m_string_add_assign),
         M(r"^String::push$", m_string_push),
         M(r"^<Chars<'_> as Iterator>::next$", m_chars_next),
+        M(r"^<Chars<'_> as IntoIterator>::into_iter$", m_identity),
         M(r"^core::num::<impl u8>::from_str_radix$", m_u8_from_str_radix),
         M(r"^<T as AsRef<(str|\[u8\])>>::as_ref$", m_as_ref_same),
         M(r"^<&\[u8\] as IntoIterator>::into_iter$", m_slice_into_iter),
